@@ -41,7 +41,7 @@ def run(run):
             args = lat.noisy_args(run, pc.olabels(A))
             r = 'cneighbors %d' % A
             with guard(run, 'Context.neighbors(%r)' % (args,), [pc.line, r]):
-                res = pc.ctx.neighbors(args)
+                res = pc.ctx.neighbors(lat.as_iterable(run, args))
                 pairs = [(pc.omask(e), pc.pmask(i)) for e, i in res]
             reqs.append(r)
             cases.append((args, pairs))
